@@ -144,12 +144,13 @@ def removeHints (s : Str) : Str := stripPy (subHints false s)
 
 /-! ### `centrifugate_hints` -/
 
-/-- Python `sorted(set(tokens))` on code-point lists: insertion into a strictly increasing list. -/
-def insertUniq (x : Str) : List Str → List Str
-  | [] => [x]
-  | y :: ys => if x = y then y :: ys else if x < y then x :: y :: ys else y :: insertUniq x ys
+/-- `set(tokens)`: one copy of each token. -/
+def dedup : List Str → List Str
+  | [] => []
+  | x :: xs => if x ∈ dedup xs then dedup xs else x :: dedup xs
 
-def sortDedup (l : List Str) : List Str := l.foldr insertUniq []
+/-- Python `sorted(set(tokens))`: code-point lexicographic order. -/
+def sortDedup (l : List Str) : List Str := (dedup l).mergeSort fun a b => decide (a ≤ b)
 
 /-- The loop over the lines: (lines kept, tokens of the isolated hints in reading order). -/
 def scanIsolated : List Str → List Str × List Str
